@@ -845,6 +845,15 @@ def run(case):
             Kb = fem.SolidBody(um, field).assemble.matrix(field).toarray()
             if K is not None and np.abs(K - Kb).max() > 1e-10 * np.abs(Kb).max():
                 c.bad("vs-solidbody", "FormItem matrix of the hyperelastic weak form vs SolidBody", float(np.abs(K - Kb).max()), 0)
+            # the same item with the documented symmetric shortcut (sym=True: only one triangle of the cell matrix is integrated),
+            # serial and threaded: still the derivative of its vector
+            item_s = fem.FormItem(bilinearform=a, linearform=L, sym=True)
+            Ks_ = fd_check(c, "K/sym=True", [item_s], field, 2e-5 * hm, symmetric=True)
+            Kp_ = fem.tools.jac([item_s], field, parallel=True).toarray()
+            c.trans += 1
+            c.traces += 1
+            if np.abs(Kp_ - Kb).max() > 1e-10 * np.abs(Kb).max():
+                c.bad("sym=True/parallel/vs-solidbody", "FormItem(sym=True) matrix assembled with parallel=True vs SolidBody", float(np.abs(Kp_ - Kb).max() / np.abs(Kb).max()), 0)
         else:
             mesh, region, field = make_field("hexahedron", "renum", "3d", seed, mixed=False)
             import felupe as fem2
